@@ -35,7 +35,35 @@ func c10Input(c *ctx, i int, valid []string) (class string, src string) {
 	if cls == 11 && i%32 == 11 {
 		cls = 13 // half of the valid-plus-garbage slots go to the arity probes
 	}
+	if cls == 9 && i%32 == 25 {
+		cls = 16 // half of the cyclic-declaration slots go to deeply nested (acyclic) types
+	}
 	switch cls {
+	case 16: // deeply nested array types and DAG-shaped struct nesting (small sources, large or deep types)
+		if c.chance(0.5) {
+			d := []int{16, 64, 200, 500}[c.rng.Intn(4)]
+			ty := rep("array<", d) + "f32" + rep(", 2>", d)
+			forms := []string{
+				"struct S { a: " + ty + ", }\n" + wrap("  var s: S;"),
+				"var<private> p: " + ty + ";\n" + wrap("  o[0] = 1u;"),
+				"struct S { a: " + ty + ", }\n@group(0) @binding(1) var<storage, read_write> b: S;\n" + wrap("  o[0] = 1u;"),
+			}
+			return "deep-array-type", forms[c.rng.Intn(len(forms))]
+		}
+		k := []int{8, 12, 16, 20, 24}[c.rng.Intn(5)]
+		var sb strings.Builder
+		sb.WriteString("struct S0 { a: f32, }\n")
+		for j := 1; j <= k; j++ {
+			fmt.Fprintf(&sb, "struct S%d { a: S%d, b: S%d, }\n", j, j-1, j-1)
+		}
+		path := rep(".a", k+1)
+		forms := []string{
+			fmt.Sprintf("@group(0) @binding(1) var<storage, read_write> buf: S%d;\n", k) + wrap("  buf"+path+" = 1.0;"),
+			fmt.Sprintf("var<private> w: S%d;\n", k) + wrap("  w"+path+" = 1.0;"),
+			wrap(fmt.Sprintf("  var w: S%d;\n  w%s = 1.0;", k, path)),
+			wrap("  o[0] = 1u;"), // declared, never instantiated
+		}
+		return "struct-dag", sb.String() + forms[c.rng.Intn(len(forms))]
 	case 0: // arbitrary bytes
 		n := c.rng.Intn(300)
 		if c.chance(0.05) {
